@@ -34,6 +34,24 @@ ENGINES["prefix"] = dict(
               "pmsg.multi-hint", "pmsg.multi-iapd", "pmsg.no-client-id", "pmsg.noprefixavail", "pmsg.new-lease", "pmsg.known-lease"],
 )
 
+ENGINES["dispatch4"] = dict(
+    drv="dispatch4", starts=(),
+    trivial=r"=> U ; drop ; inv -$",
+    branches=["dg4.unparsable", "dg4.not-bootrequest", "dg4.other-type", "dg4.request", "dg4.drop", "dg4.l2", "dg4.broadcast",
+              "dg4.relay", "dg4.unicast", "dg4.pinned", "dg4.unpinned", "dg4.nak", "dg4.l2-no-interface"],
+)
+ENGINES["dispatch6"] = dict(
+    drv="dispatch6", starts=(),
+    trivial=r"=> U ; drop ; inv -$",
+    branches=["dg6.unparsable", "dg6.direct", "dg6.relay-depth-1", "dg6.relay-depth-2", "dg6.relay-depth-3", "dg6.relay-depth-4",
+              "dg6.no-inner", "dg6.supported-type", "dg6.unsupported-type", "dg6.drop", "dg6.pinned", "dg6.unpinned", "dg6.advertise", "dg6.reply"],
+)
+ENGINES["plugins"] = dict(
+    drv="plugins", starts=(),
+    trivial=r"^load - - ",
+    branches=["load.ok", "load.noconfig", "load.unknown", "load.setup-error", "load.nil-handler"],
+)
+
 TB_BITSET = "github.com/bits-and-blooms/bitset (New/Test/Set/Clear/NextClear) modelled as List Bool, not verified"
 TB_STD = "Go stdlib net/bytes/encoding/binary/math/bits taken at their documented Nat-level meaning"
 
@@ -42,7 +60,42 @@ ALLOC_THEOREMS = lambda k: ["%s_alloc6" % k, "%s_alloc4" % k]
 TB_SQLITE = "sqlite3 (mattn/go-sqlite3) modelled as a table keyed (mac, ip); the stored form of a hardware address (HardwareAddr.String, column affinity, the loader's parser) is a parameter assumed to round-trip, exercised by every restart of the conformance run"
 TB_CLOCK = "the wall clock is a parameter of the model; the conformance run brackets each call with the times measured around it"
 
+TB_CODEC = "insomniacslk/dhcp: FromBytes/ToBytes and the reply constructors are not verified; the model starts from the parse result the harness obtains from the library for each datagram, and mirrors NewReplyFromRequest / NewAdvertiseFromSolicit / NewReplyFromMessage / NewRelayReplFromRelayForw"
+TB_HOOK = "server capture hook (build tag verif): the real HandleMsg4/6 runs; the reply is captured instead of written to a socket"
+
 PROPS = {
+    "C11": dict(
+        engines=[("dispatch4", 6000, 100000)],
+        theorems=["C11_holds", "C11_never_answers_non_requests"],
+        modules=["CoreDhcp.Props.C11"],
+        trusted_base=[TB_CODEC, TB_HOOK],
+        assumptions=["handlers preserve the echoed fields and keep the reply type within OFFER-for-DISCOVER / ACK-or-NAK-for-REQUEST (Handler4.Preserving): true of the scripted handlers of the run; proved per built-in plugin model under C17",
+                     "'every byte string' is 'every parse result, or parse failure': the byte parser is the library's"],
+    ),
+    "C12": dict(
+        engines=[("dispatch6", 6000, 100000)],
+        theorems=["C12_holds", "C12_mirror"],
+        modules=["CoreDhcp.Props.C12"],
+        trusted_base=[TB_CODEC, TB_HOOK],
+        assumptions=["handlers return DHCPv6 messages (not relay messages) and keep type, transaction id, client id and rapid commit (Handler6.Preserving)"],
+    ),
+    "C13": dict(
+        engines=[("dispatch4", 4000, 60000), ("dispatch6", 4000, 60000), ("plugins", 3000, 50000)],
+        theorems=["C13_order", "C13_stop", "C13_sends_last4", "C13_sends_last6", "C13_load_exact", "C13_load_aborts", "C13_load_succeeds"],
+        modules=["CoreDhcp.Props.C13"],
+        facts=["F3", "F7"],
+        trusted_base=[TB_CODEC, TB_HOOK],
+        assumptions=["'built-in handlers return nil only with stop' is checked syntactically on the source (fact F3) and per plugin model",
+                     "every listener of a protocol is given the one chain LoadPlugins returned (fact F7)"],
+    ),
+    "C15": dict(
+        engines=[("dispatch4", 6000, 100000)],
+        theorems=["C15_holds", "C15_has_interface"],
+        modules=["CoreDhcp.Props.C15"],
+        facts=["F5", "F6"],
+        trusted_base=[TB_CODEC, TB_HOOK, "the kernel delivers IP_PKTINFO when asked (fact F5 checks that listen4 asks exactly when unbound); the link-level send itself (sendEthernet) is not modelled"],
+        assumptions=["the listener is bound to an interface or the kernel reported the receiving one; the excluded point (link-level reply with no interface information) dereferences a nil control message in the code and is `panicNoIf` in the model"],
+    ),
     "C02": dict(
         engines=[("range", 2500, 40000)],
         theorems=["C02_holds", "C02_progress"],
